@@ -77,6 +77,7 @@ func writeEvidence(path, prop, tier string, hs []*Harness, results []*HarnessRes
 	var samples []interface{}
 	var hsum []interface{}
 	var assumptions []string
+	allFuncs := map[string]int{}
 	for _, r := range results {
 		if r == nil {
 			continue
@@ -94,7 +95,16 @@ func writeEvidence(path, prop, tier string, hs []*Harness, results []*HarnessRes
 				bounds[k[2:]] = v
 			}
 		}
+		fnames := make([]string, 0, len(r.Stats.Funcs))
+		for fn := range r.Stats.Funcs {
+			fnames = append(fnames, fn)
+		}
+		sort.Strings(fnames)
+		for _, fn := range fnames {
+			allFuncs[fn] += r.Stats.Funcs[fn]
+		}
 		hsum = append(hsum, map[string]interface{}{
+			"functions_encoded": fnames,
 			"harness": r.H.Name, "file": r.H.File, "entry": r.H.Fn.String(), "entry_hash": fnHash(r.H.Fn), "bounds": bounds,
 			"paths": r.Stats.Paths, "instructions": r.Stats.Steps, "decisions": r.Stats.Decisions, "sched_points": r.Stats.SchedPoints,
 			"queries": r.Queries, "unsat": r.NUnsat, "sat": r.NSat, "unknown": r.NUnknown, "solver_s": round2(r.SolverWall.Seconds()),
@@ -141,6 +151,7 @@ func writeEvidence(path, prop, tier string, hs []*Harness, results []*HarnessRes
 	}
 	cov["samples"] = samples
 	cov["harnesses"] = hsum
+	cov["functions_encoded"] = allFuncs // repository functions executed symbolically from their SSA, with the number of times entered
 	cov["solver_queries"] = queries
 	cov["solver_unsat"] = unsat
 	cov["solver_sat"] = sat
